@@ -161,7 +161,9 @@ def main():
             "CSC(C)=O", "OC(=S)C", "N#CCO", "c1cc[nH]c1O", "COc1ccccc1", "O=CC=O", "OC=O", "NC(N)=O", "CC(=O)C(C)=O", "C1COC(=O)O1",
             "OCOCO", "COCOC", "CC(C)(O)OC", "O=C1CCC(=O)O1",
             # aromatic rings that are not six-membered next to six-ring patterns (anilin = Nc1ccccc1)
-            "Cc1cccc(N)c(=O)c1", "Nc1ccccc(=O)c1", "Nc1ccc2cccccc12", "Nc1cccc2cccc12", "Nc1ccco1", "Nc1cccs1", "Nc1ccc[nH]1"]
+            "Cc1cccc(N)c(=O)c1", "Nc1ccccc(=O)c1", "Nc1ccc2cccccc12", "Nc1cccc2cccc12", "Nc1ccco1", "Nc1cccs1", "Nc1ccc[nH]1",
+            # dative bonds: neither single nor double for a pattern
+            "CN(C)(C)->O", "CN1(->O)CCOCC1", "O<-n1ccccc1", "CN(=O)->O", "O=N(->O)c1ccccc1", "CS(C)->O", "[NH3]->B(F)(F)F"]
     mols += corpus.molecules(limit=150 if tier == "quick" else 3000, rng=rng)
     nfg = 0
     for smi in mols:
